@@ -107,8 +107,9 @@ def classify (known : String → Bool) (method : String) (path : List String) : 
     else if method == "GET" then .fetchRelated ⟨ty, id⟩ rel
     else if method == "PATCH" then .updateRelated ⟨ty, id⟩ rel
     else .methodNotAllowed
-  | [ty, id, "relationships", rel] =>
-    if !known ty then .unknown
+  | [ty, id, mid, rel] =>
+    if mid ≠ "relationships" then .unknown
+    else if !known ty then .unknown
     else if method == "GET" then .fetchRel ⟨ty, id⟩ rel
     else if method == "PATCH" then .replaceRel ⟨ty, id⟩ rel
     else if method == "POST" then .addRel ⟨ty, id⟩ rel
@@ -235,6 +236,41 @@ def fetchRelatedStatus (s : Schema) (d : RelDef) : Nat :=
     | some n => n
     | none => if rids.any (relatedUnmarshalable s) then 500 else 200
 
+/-- R5/R6 for a body that must be a resource object addressing `id`, then `k`. -/
+def resourceBody (body : Body) (id : RId) (k : Nat) : Nat :=
+  match body.patchRes with
+  | none => 400
+  | some b => if b ≠ id then 409 else k
+
+/-- R5–R10 for `POST /{ty}`. -/
+def createStatus (td : TypeDef) (body : Body) (ty : String) : Nat :=
+  match body.postRes with
+  | none => 400
+  | some bty =>
+    if bty ≠ ty then 409
+    else match td.create with
+      | none => 405
+      | some (.error e) => errStatus e
+      | some .nil => 404
+      | some (.created _) => sendResource td 201
+
+/-- R7/R8/R10 for `DELETE /{type}/{id}`. -/
+def deleteStatus (td : TypeDef) (id : String) : Nat :=
+  match td.delete with
+  | none => 405
+  | some f =>
+    match f id with
+    | some e => errStatus e
+    | none => 200
+
+def addStatus : RelDef → Nat
+  | .toOne _ _ => 405
+  | .toMany _ _ add _ => membersStatus add
+
+def removeStatus : RelDef → Nat
+  | .toOne _ _ => 405
+  | .toMany _ _ _ remove => membersStatus remove
+
 /-- PATCH on the related-resource route updates the to-one related resource. -/
 def updateRelatedStatus (s : Schema) (body : Body) (d : RelDef) : Nat :=
   match requestedLinkage d with
@@ -242,10 +278,7 @@ def updateRelatedStatus (s : Schema) (body : Body) (d : RelDef) : Nat :=
   | .ok (.one rid) =>
     match s.lookup rid.type with
     | none => 404
-    | some rt =>
-      match body.patchRes with
-      | none => 400
-      | some b => if b ≠ rid then 409 else viaHandler rt rt.patch rid.id
+    | some rt => resourceBody body rid (viaHandler rt rt.patch rid.id)
   | .ok _ => 404
 
 /-! ### RefStatus -/
@@ -253,34 +286,18 @@ def updateRelatedStatus (s : Schema) (body : Body) (d : RelDef) : Nat :=
 def opStatus (s : Schema) (body : Body) (t : String → Option TypeDef) : Op → Nat
   | .unknown => 404
   | .methodNotAllowed => 405
-  | .create ty =>
-    match t ty, body.postRes with
-    | none, _ => 404
-    | some _, none => 400
-    | some td, some bty =>
-      if bty ≠ ty then 409
-      else match td.create with
-        | none => 405
-        | some (.error e) => errStatus e
-        | some .nil => 404
-        | some (.created _) => sendResource td 201
+  | .create ty => match t ty with
+    | none => 404
+    | some td => createStatus td body ty
   | .fetch id => match t id.type with
     | none => 404
     | some td => viaHandler td td.get id.id
   | .update id => match t id.type with
     | none => 404
-    | some td =>
-      match body.patchRes with
-      | none => 400
-      | some b => if b ≠ id then 409 else viaHandler td td.patch id.id
+    | some td => resourceBody body id (viaHandler td td.patch id.id)
   | .remove id => match t id.type with
     | none => 404
-    | some td =>
-      match td.delete with
-      | none => 405
-      | some f => match f id.id with
-        | some e => errStatus e
-        | none => 200
+    | some td => deleteStatus td id.id
   | .fetchRelated id rel => match t id.type with
     | none => 404
     | some td => withRelationship td td.get id.id rel (fetchRelatedStatus s)
@@ -295,18 +312,10 @@ def opStatus (s : Schema) (body : Body) (t : String → Option TypeDef) : Op →
     | some td => if !body.relData then 400 else withRelationship td td.patch id.id rel linkageStatus
   | .addRel id rel => match t id.type with
     | none => 404
-    | some td =>
-      if !body.members then 400
-      else withRelationship td td.get id.id rel (fun d => match d with
-        | .toOne _ _ => 405
-        | .toMany _ _ add _ => membersStatus add)
+    | some td => if !body.members then 400 else withRelationship td td.get id.id rel addStatus
   | .removeRel id rel => match t id.type with
     | none => 404
-    | some td =>
-      if !body.members then 400
-      else withRelationship td td.get id.id rel (fun d => match d with
-        | .toOne _ _ => 405
-        | .toMany _ _ _ remove => membersStatus remove)
+    | some td => if !body.members then 400 else withRelationship td td.get id.id rel removeStatus
 
 /-- **RefStatus**: the status the property demands. -/
 def refStatus (s : Schema) (r : Req) : Nat :=
